@@ -321,6 +321,26 @@ func runC02(c *Ctx) {
 			c02Msg(c, "printed-octets", append(h, w...), false)
 		}
 	}
+	// 2b''. long values in the fields that printers cut into pieces or encode block by block (hex in pieces of 1024
+	//       characters, base64 / base32 in groups): lengths at and around every multiple of 256 octets; what is accepted must print
+	for _, tt := range []struct {
+		typ uint16
+		pre []byte
+	}{{dns.TypeSMIMEA, []byte{3, 1, 1}}, {dns.TypeTLSA, []byte{3, 1, 1}}, {dns.TypeDS, []byte{0, 1, 8, 2}}, {dns.TypeDNSKEY, []byte{1, 1, 3, 8}},
+		{dns.TypeCERT, []byte{0, 1, 0, 1, 8}}, {dns.TypeOPENPGPKEY, nil}, {dns.TypeSSHFP, []byte{1, 1}}, {dns.TypeDHCID, nil}, {dns.TypeNULL, nil},
+		{dns.TypeEID, nil}, {dns.TypeNIMLOC, nil}, {65280, nil}, {dns.TypeZONEMD, []byte{0, 0, 0, 1, 1, 1}}, {dns.TypeRKEY, []byte{0, 0, 3, 8}}, {dns.TypeTA, []byte{0, 1, 8, 2}}} {
+		for blk := 1; blk <= 17; blk++ {
+			for d := -1; d <= 1; d++ {
+				n := blk*256 + d
+				rd := append(append([]byte{}, tt.pre...), r.Bytes(n)...)
+				w := assembleRR([][]byte{[]byte("big")}, tt.typ, 1, 60, rd)
+				h := buildMsgWire(1, 0x8000, nil, nil, nil, nil)
+				h[7] = 1
+				c02Msg(c, "long-values", append(h, w...), false)
+				c.Hit(fmt.Sprintf("long-values:%s", dns.Type(tt.typ).String()))
+			}
+		}
+	}
 	// 2c. type-length-value sub-structures: every EDNS0 option code and SVCB key with every small length,
 	//     APL items with every address length; RDLENGTH and option lengths consistent
 	fill := func(n int) []byte {
